@@ -73,6 +73,11 @@ def check(run, prog, tier):
                         "that return a value and change nothing read the managed property, not the raw storage (which may still "
                         "be in the basis the object was last read in)", minimum=2)
     rule_B16(run, prog)
+    run.rule("C04-B17", "every basis-managed object is transformed on its own: a managed object that a method builds from the data of "
+                        "`self` (data=...) gets an array of its own - not a slice / view of self.data or self._data, directly or "
+                        "through an accessor of the same class that returns one (the setter keeps what it is given; two objects on "
+                        "one storage are transformed twice in a context and written through outside)", minimum=1)
+    rule_B17(run, prog)
     run.rule("C04-B12", "arithmetic between basis-managed objects reads the other operand through its managed property", minimum=2)
     rule_B12(run, prog)
     run.rule("C04-B11", "a managed object created inside a method from the data of self owns its array (objects created inside a "
@@ -839,6 +844,57 @@ def rule_B5(run, prog):
                    message="lazy transformation must transform, re-tag with the current basis and "
                            "register the object with it", loc=f.loc())
     rule_B5_composition(run, prog, rid)
+
+
+_OWNING = ("copy", "array", "zeros", "zeros_like", "real", "imag", "dot", "einsum", "tensordot", "diag", "conj", "abs", "sqrt", "outer")
+
+
+def rule_B17(run, prog):
+    rid = "C04-B17"
+    n = 0
+
+    def is_view_of_self(e, cls, depth=2):
+        """expression that shares storage with self.data / self._data"""
+        if isinstance(e, ast.Attribute) and e.attr in ("T", "real", "imag"):
+            return is_view_of_self(e.value, cls, depth)
+        if isinstance(e, ast.Subscript):
+            return is_view_of_self(e.value, cls, depth)
+        if isinstance(e, ast.Attribute) and norm(e) in ("self.data", "self._data"):
+            return True
+        if isinstance(e, ast.Call) and isinstance(e.func, ast.Attribute) and norm(e.func.value) == "self" and depth > 0:
+            m_ = prog.find_method(cls, e.func.attr) if hasattr(prog, "find_method") else cls.methods.get(e.func.attr)
+            if m_ is not None and isinstance(m_.node, ast.FunctionDef):
+                rets = [r for r in walk_no_nested(m_.node) if isinstance(r, ast.Return) and r.value is not None]
+                return bool(rets) and any(is_view_of_self(r.value, cls, depth - 1) for r in rets)
+        if isinstance(e, ast.Call) and (call_name(e) or "").split(".")[-1] in ("asarray", "transpose", "swapaxes", "reshape", "squeeze", "ravel") \
+                and e.args:
+            return is_view_of_self(e.args[0], cls, depth)
+        return False
+
+    for cls in list(prog.all_classes()):
+        if not cls.module.name.startswith("quantarhei.qm.hilbertspace.") or ".tests." in cls.module.name:
+            continue
+        for name, f in sorted(cls.methods.items()):
+            if not isinstance(f.node, ast.FunctionDef):
+                continue
+            for c in walk_no_nested(f.node):
+                if not (isinstance(c, ast.Call) and isinstance(c.func, ast.Name) and c.func.id[:1].isupper()):
+                    continue
+                dk = [k.value for k in c.keywords if k.arg == "data"]
+                if not dk:
+                    continue
+                if not any(isinstance(y, ast.Name) and y.id == "self" for y in ast.walk(dk[0])):
+                    continue
+                n += 1
+                prog.consulted.add(f.relpath)
+                view = is_view_of_self(dk[0], cls)
+                run.obligation(rid, f.short, not view, key="own-array:" + c.func.id,
+                               message="%s builds %s(data=%s) on the storage of self: the new object and self are transformed each on "
+                                       "its own label but share the numbers - inside a context of a non-diagonal operator one of them is "
+                                       "transformed twice, and a write into one changes the other" % (f.short, c.func.id, norm(dk[0])[:50]),
+                               loc=f.loc(c), sample={"method": f.short, "constructed": c.func.id, "data": norm(dk[0])[:60]})
+    if n < 1:
+        raise AnalysisError("C04-B17: no method of quantarhei.qm.hilbertspace builds a managed object from data of self")
 
 
 def rule_B5_composition(run, prog, rid="C04-B5"):
